@@ -209,6 +209,21 @@ def bounded(chk):
                     chk.violation("alias", f"C02/alias/threshold_at_{al}", f"threshold_at_{al}({r}, method={method!r}) = {a!r} != threshold_at_{tgt} = {b!r}", None, reproduced=True)
 
 
+def crosscheck(chk):
+    """engine vs CPython on concrete inputs (DESIGN 7.2): every threshold_at_* x method; targets off the k/N grid (on the grid the
+    float product r*N may round to the integer that the exact product misses) plus the special cases r <= 0, r >= 1"""
+    from vf.crosscheck import run_crosscheck
+    data = [([1.0, 2.0], [1.0, 3.0]), ([1.0, 2.0, 2.0, 4.0], [0.5, 2.0]), ([3.0], [1.0, 2.0, 5.0, 6.0])]
+    cases = []
+    for pos, neg in data[: (2 if chk.tier == "quick" else 3)]:
+        for sc, ec in B.CONFIGS:
+            for ep, en in ((0, 0), (2, 1)):
+                for r in (0.137, 0.611, 0.873, -0.5, 0.0, 1.0) + ((0.389, 1.5) if chk.tier == "thorough" else ()):
+                    cases.append({"pos": pos, "neg": neg, "ep": ep, "en": en, "sc": sc, "ec": ec, "args": [r]})
+    run_crosscheck(chk, [("threshold_at_" + m, {"method": me}, cases, 1e-9) for m in TH.METRICS for me in TH.METHODS])
+
+
 def run(chk):
     prove(chk, build, ground_sizes=[(1, 1, 0, 0), (2, 1, 0, 0), (1, 2, 0, 0), (2, 2, 1, 1), (3, 1, 0, 0), (1, 3, 0, 0), (2, 1, 2, 0), (1, 2, 0, 3)], replay=replay, parts=PARTS)
     bounded(chk)
+    crosscheck(chk)
